@@ -476,7 +476,7 @@ Fixpoint pk (g : bool) (e : hexp) : bool :=
   | XAccess _ o n x => pk g o && pk g n && pk g x
   | XType a | XLookup a | XCtxArgs a => pk g a
   | XCall f p st k => pk g f && pk g p && pk g st && pk g k
-  | XIfNone c t e | XIfHasConn c t e => pk g c && pk g t && pk g e
+  | XIfNone c t e | XIfHasConn _ c t e => pk g c && pk g t && pk g e
   | XForward c _ a => pk g c && pk g a
   | _ => true
   end.
@@ -597,7 +597,11 @@ Proof.
     sp_bind holds; [apply IHe1; assumption|]. intros cv.
     destruct cv; try (sp_pre IHe3; [assumption|tauto]); [|sp_pre IHe2; [assumption|tauto]].
     sp_bind (fun (_ : state) (_ : unit) => True).
-    + apply spec_emit; [exact Logic.I|]. intros s _ [_ H]. cbn. split; [now apply holds_LO|discriminate].
+    + destruct ty.
+      * sp_bind (fun s (_ : unit) => incl [s_type S o] (auth s)).
+        -- apply spec_emit_hold; [exact Logic.I|reflexivity|]. intros s _ [_ H]. cbn. split; [now apply holds_LO|reflexivity].
+        -- intros _. apply spec_emit; [exact Logic.I|]. intros s _ [_ H]. cbn. split; [apply H; now left|discriminate].
+      * apply spec_emit; [exact Logic.I|]. intros s _ [_ H]. cbn. split; [now apply holds_LO|discriminate].
     + intros _. sp_pre IHe3; [assumption|tauto].
   - (* XForward *)
     sp_bind holds; [apply IHe1; assumption|]. intros cv.
@@ -884,14 +888,27 @@ Proof.
 Qed.
 
 Ltac q1 :=
-  first [ apply q_ret | apply q_raise | apply q_unm | apply q_lift | apply q_emit | apply q_mark | apply q_pop | apply q_touch
-        | apply q_val_op | apply q_resolve | apply q_lend | apply q_cleanup | apply q_load_exc | assumption
-        | (apply q_bind; [|intros ?]) ].
+  lazymatch goal with
+  | |- qspec (ret _) => apply q_ret
+  | |- qspec (raise _) => apply q_raise
+  | |- qspec (raise_std _) => apply q_raise
+  | |- qspec unm => apply q_unm
+  | |- qspec (lift _) => apply q_lift
+  | |- qspec (emit _) => apply q_emit
+  | |- qspec mark_approx => apply q_mark
+  | |- qspec pop_answer => apply q_pop
+  | |- qspec (touch _ _ _ _) => apply q_touch
+  | |- qspec (val_op _ _ _ _) => apply q_val_op
+  | |- qspec (resolve _) => apply q_resolve
+  | |- qspec (lend _ _) => apply q_lend
+  | |- qspec cleanup => apply q_cleanup
+  | |- qspec (load_exc _ _ _) => apply q_load_exc
+  | |- qspec (mbind _ _) => apply q_bind; [|intros ?]
+  end.
 Ltac qd :=
-  match goal with
+  lazymatch goal with
   | |- qspec (match ?x with _ => _ end) => destruct x
   | |- qspec (if ?x then _ else _) => destruct x
-  | |- qspec (let '(_, _) := ?x in _) => destruct x
   end.
 Ltac qauto := repeat first [q1 | qd].
 
@@ -929,7 +946,11 @@ Proof. unfold ask. apply q_bind; [apply q_box|intros]. apply q_bind; [apply q_em
 Lemma q_converse h args : qspec (converse S C UL BL h args).
 Proof. unfold converse. apply q_bind; [apply q_mark|intros; apply q_ask]. Qed.
 Hint Resolve q_converse q_ask q_unbox q_box : qs.
-Ltac q2 := first [q1 | apply q_converse | apply q_ask | apply q_unbox | apply q_box | qd].
+Ltac q2 := first [q1 | lazymatch goal with
+  | |- qspec (converse _ _ _ _ _ _) => apply q_converse
+  | |- qspec (ask _ _ _ _ _ _) => apply q_ask
+  | |- qspec (unbox _ _ _ _ _) => apply q_unbox
+  | |- qspec (box _ _ _ _) => apply q_box end | qd].
 Lemma q_iter v : qspec (iter_lval S C UL BL v).
 Proof. destruct v; cbn [iter_lval]; repeat q2. Qed.
 Lemma q_kw v : qspec (kw_lval S C UL BL v).
@@ -952,7 +973,12 @@ Proof.
 Qed.
 Lemma q_islice b : qspec (islice_count S C UL BL b).
 Proof. destruct b; cbn [islice_count]; repeat q2. Qed.
-Ltac q3 := first [q1 | apply q_converse | apply q_ask | apply q_unbox | apply q_box | apply q_iter | apply q_kw | apply q_truthy | apply q_access | apply q_islice | qd].
+Ltac q3 := first [q2 | lazymatch goal with
+  | |- qspec (iter_lval _ _ _ _ _) => apply q_iter
+  | |- qspec (kw_lval _ _ _ _ _) => apply q_kw
+  | |- qspec (truthy _ _ _ _ _) => apply q_truthy
+  | |- qspec (access _ _ _ _ _ _ _ _) => apply q_access
+  | |- qspec (islice_count _ _ _ _ _) => apply q_islice end].
 Lemma q_do_op op a b : qspec (do_op S C UL BL op a b).
 Proof. destruct op; cbn [do_op]; repeat q3. Qed.
 Lemma q_decref k c : qspec (decref S k c).
@@ -960,14 +986,18 @@ Proof.
   destruct k; cbn [decref]; try (repeat q3; fail).
   intros s s' r E. destruct (tbl_find v (tbl s)) as [[o cnt]|].
   - destruct c; try (injection E as <- <-; apply qrel_refl).
-    + destruct v0; try (injection E as <- <-; first [apply qrel_refl | apply (qrel_add s (EDecref v _))]).
+    + destruct v0; try (injection E as <- <-; first [apply qrel_refl | exact (qrel_add s (EDecref v _))]).
     + revert E. apply (q_bind (touch S OpCmp o0 []) (fun _ => unm)); [apply q_touch|intros; apply q_unm].
   - injection E as <- <-. apply qrel_add.
 Qed.
-Ltac q4 := first [q3 | apply q_do_op | apply q_decref].
+Ltac q4 := first [q3 | lazymatch goal with
+  | |- qspec (do_op _ _ _ _ _ _ _) => apply q_do_op
+  | |- qspec (decref _ _ _) => apply q_decref end].
 Lemma q_eval e : forall env loc, qspec (eval S C UL BL env loc e).
 Proof.
-  induction e; intros env loc; cbn [eval]; try (repeat first [q4 | apply IHe | apply IHe1 | apply IHe2 | apply IHe3 | apply IHe4]; fail).
+  induction e; intros env loc; cbn [eval];
+    try (repeat first [q4 | lazymatch goal with |- qspec (eval _ _ _ _ _ _ ?x) =>
+                              first [apply IHe | apply IHe1 | apply IHe2 | apply IHe3 | apply IHe4] end]; fail).
   - (* XTryExc *)
     intros s s' r E. destruct (eval S C UL BL env loc e1 s) as [s1 r1] eqn:E1. pose proof (IHe1 _ _ _ _ _ E1) as Q1.
     destruct r1 as [a|x|]; [now injection E as <- <-| |now injection E as <- <-].
@@ -1035,9 +1065,183 @@ Proof.
   destruct (match num_of kind with Some z => assoc_z z ML | None => None end) as [[| |]|].
   - eapply qrel_trans; [exact Q0|eapply q_dispatch_request; eauto].
   - destruct (unbox S C UL FUEL args s0) as [s1 r1] eqn:Eu. pose proof (q_unbox _ _ _ _ _ Eu) as Q1.
-    destruct r1; injection E as <- <-; first [apply QE; exact Q1 | eapply qrel_trans; eauto].
+    destruct r1; injection E as <- <-; first [exact (QE _ Q1) | exact (qrel_trans _ _ _ Q0 Q1)].
   - destruct (load_exc S C args s0) as [s1 r1] eqn:Eu. pose proof (q_load_exc _ _ _ _ Eu) as Q1.
-    destruct r1; injection E as <- <-; first [apply QE; exact Q1 | eapply qrel_trans; eauto].
+    destruct r1; injection E as <- <-; first [exact (QE _ Q1) | exact (qrel_trans _ _ _ Q0 Q1)].
   - injection E as <- <-. apply QE, qrel_refl.
 Qed.
 End Quiet.
+
+(* ================================================================== one outcome per message *)
+Section Outcome.
+Context {W : Type}.
+Variable S : sem W.
+Variable C : config.
+Variable HT : list (string * hdef).
+Variable DT : list (Z * string).
+Variable ML : list (Z * dact).
+Variable UL : list (Z * uact).
+Variable BL : list (string * Z).
+
+Definition kind_of (msg : pyval) : option (dact * pyval * pyval) :=
+  match Vinegar.unpack 3 msg with
+  | Ok [kind; seq; args] =>
+      match match num_of kind with Some z => assoc_z z ML | None => None end with
+      | Some d => Some (d, seq, args)
+      | None => None
+      end
+  | _ => None
+  end.
+
+(* a request is answered with its own sequence number (value or exception), or the connection ends (a local
+   KeyboardInterrupt/SystemExit that the configuration propagates, or the peer's own close request) *)
+Theorem request_outcome msg answers (s s' : hst W) o seq args :
+  closed s = false -> kind_of msg = Some (DRequest, seq, args) ->
+  handle_msg S C HT DT ML UL BL msg answers s = (s', o) ->
+  (exists p, o = OReply seq p) \/ (exists x, o = OExc seq x /\ propagates C x = false) \/
+  (exists x, o = OEnd x /\ propagates C x = true /\ closed s' = true) \/ (o = OClosed /\ closed s' = true) \/ o = OUnm.
+Proof.
+  intros Hc Hk E. unfold handle_msg in E. rewrite Hc in E. unfold kind_of in Hk.
+  destruct (Vinegar.unpack 3 msg) as [l| | |]; try discriminate.
+  destruct l as [|kind [|seq' [|args' [|? ?]]]]; try discriminate.
+  destruct (match num_of kind with Some z => assoc_z z ML | None => None end) as [d|]; [|discriminate].
+  injection Hk as -> <- <-. unfold dispatch_request in E.
+  match type of E with context [?m ?s0] => match m with mbind _ _ => destruct (m s0) as [s1 r1] end end.
+  destruct r1 as [v|x|].
+  - destruct (closed s1) eqn:Ec; [injection E as <- <-; right; right; right; left; auto|].
+    destruct (box S BL FUEL v s1) as [s2 [p| |]]; injection E as <- <-; eauto 6.
+  - destruct (closed s1) eqn:Ec; [injection E as <- <-; right; right; right; left; auto|].
+    destruct (propagates C x) eqn:Ep; injection E as <- <-.
+    + right; right; left. exists x. repeat split; auto. unfold end_conn. now rewrite Ec.
+    + right; left. eauto.
+  - injection E as <- <-. auto 6.
+Qed.
+(* anything else is never answered: it is dropped or this connection ends *)
+Theorem other_outcome msg answers (s s' : hst W) o :
+  closed s = false -> (forall seq args, kind_of msg <> Some (DRequest, seq, args)) ->
+  handle_msg S C HT DT ML UL BL msg answers s = (s', o) ->
+  o = OIgnored \/ (exists x, o = OEnd x /\ closed s' = true) \/ o = OUnm.
+Proof.
+  intros Hc Hk E. unfold handle_msg in E. rewrite Hc in E. unfold kind_of in Hk.
+  assert (EC : forall s1 : hst W, closed (end_conn s1) = true).
+  { intros s1. unfold end_conn. destruct (closed s1) eqn:X; [exact X|reflexivity]. }
+  destruct (Vinegar.unpack 3 msg) as [l| | |]; try (injection E as <- <-; eauto).
+  destruct l as [|kind [|seq [|args [|? ?]]]]; try (injection E as <- <-; eauto).
+  destruct (match num_of kind with Some z => assoc_z z ML | None => None end) as [[| |]|].
+  - now elim (Hk seq args).
+  - destruct (unbox S C UL FUEL args _) as [s1 [?|?|]]; injection E as <- <-; eauto.
+  - destruct (load_exc S C args _) as [s1 [?|?|]]; injection E as <- <-; eauto.
+  - injection E as <- <-; eauto.
+Qed.
+Theorem dead_outcome msg answers (s s' : hst W) o :
+  closed s = true -> handle_msg S C HT DT ML UL BL msg answers s = (s', o) -> o = ODead /\ s' = s.
+Proof. intros Hc E. unfold handle_msg in E. rewrite Hc in E. now injection E as <- <-. Qed.
+
+(* a reference that is not in this connection's table is refused: KeyError, nothing touched, nothing changed *)
+Lemma unbox_forged f key (s : hst W) : tbl_find key (tbl s) = None -> assoc_z 3 UL = Some ULocal ->
+  unbox S C UL (Datatypes.S f) (PTuple [PInt 3; key]) s = (add_ev s (EMiss key), RRaise (XStd KeyError)).
+Proof.
+  intros F U. cbn [unbox]. unfold mbind, lift. cbn. rewrite U. unfold resolve. now rewrite F.
+Qed.
+End Outcome.
+
+(* a checkable form of "no pickling outside the guard" *)
+Definition table_pkb (c : bool) (ht : list (string * hdef)) : bool :=
+  forallb (fun nd => pk c (h_body (snd nd)) && forallb (pk c) (h_defaults (snd nd))) ht.
+Lemma table_pkb_sound C HT : table_pkb (c_pickle C) HT = true -> table_pk C HT.
+Proof.
+  unfold table_pkb, table_pk. rewrite forallb_forall. intros H n d Hin. specialize (H _ Hin). cbn in H.
+  apply andb_prop in H as [Hb Hd]. split; [exact Hb|]. rewrite forallb_forall in Hd. now apply Forall_forall.
+Qed.
+
+(* ================================================================== statements used by props/C07.v *)
+Section Final.
+Context {W : Type}.
+Variable S : sem W.
+Variable C : config.
+Variable HT : list (string * hdef).
+Variable DT : list (Z * string).
+Variable ML : list (Z * dact).
+Variable UL : list (Z * uact).
+Variable BL : list (string * Z).
+Hypothesis HTpk : table_pk C HT.
+Notation RUN w l := (run S C HT DT ML UL BL (init w) l).
+
+Theorem trace_event_ok w l t1 e t2 : tr (RUN w l) = t1 ++ e :: t2 -> ev_ok S C (ghost_of t2) e.
+Proof. intros E. apply (wf_event S C t1). rewrite <- E. now apply wf_run. Qed.
+
+(* 1. references are resolved through this connection's table only, and the table holds only what was lent on it *)
+Theorem resolve_only_lent w l t1 k o t2 : tr (RUN w l) = t1 ++ EResolve k o :: t2 ->
+  (exists c, tbl_find k (g_tbl (ghost_of t2)) = Some (o, c)) /\ exists k', In (EBox k' o) t2.
+Proof.
+  intros E. pose proof (trace_event_ok _ _ _ _ _ E) as [c Hc]. split; [eauto|].
+  apply ghost_tbl_lent. eapply tbl_find_objs; eauto.
+Qed.
+Theorem miss_not_lent w l t1 k t2 : tr (RUN w l) = t1 ++ EMiss k :: t2 -> tbl_find k (g_tbl (ghost_of t2)) = None.
+Proof. intros E. exact (trace_event_ok _ _ _ _ _ E). Qed.
+(* the table changes by lend / release / clear events only: at any moment it is the replay of those events *)
+Theorem table_is_replay w l : tbl (RUN w l) = g_tbl (ghost_of (tr (RUN w l))).
+Proof. symmetry. exact (proj2 (inv_run S C HT DT ML UL BL HTpk l _ (inv_init S C w))). Qed.
+
+(* 2. whatever is touched, probed, accessed by name, lent or pickled is held by the request: it came from the root, from the
+      table, from type() of such an object, or out of a permitted operation earlier in the same request *)
+Definition target (e : event) : option oid :=
+  match e with
+  | EProbe o _ | EAttr o _ _ _ | EHook o _ _ _ | ETouch o _ _ | EBox _ o | EType o _ => Some o
+  | _ => None
+  end.
+Theorem touched_only_held w l t1 e t2 o : tr (RUN w l) = t1 ++ e :: t2 -> target e = Some o ->
+  In o (g_auth (ghost_of t2)) /\ exists e', In e' t2 /\ gives e' o.
+Proof.
+  intros E T. pose proof (trace_event_ok _ _ _ _ _ E) as H.
+  assert (A : In o (g_auth (ghost_of t2))) by (destruct e; cbn in T; try discriminate; injection T as <-; cbn in H; tauto).
+  split; [exact A|now apply auth_origin].
+Qed.
+(* 3. pickling needs allow_pickle *)
+Theorem pickle_needs_switch w l t1 o ys t2 : tr (RUN w l) = t1 ++ ETouch o OpPickle ys :: t2 -> c_pickle C = true.
+Proof. intros E. pose proof (trace_event_ok _ _ _ _ _ E) as [_ H]. now apply H. Qed.
+(* 4. what an exception record can make vinegar.load do *)
+Theorem vinegar_effects w l t1 v t2 : tr (RUN w l) = t1 ++ EVin v :: t2 ->
+  (forall m, v = Vinegar.EImport m -> Vinegar.import_custom (c_rflags C) = true) /\
+  (forall c, v <> Vinegar.EInit c) /\
+  (forall c, v = Vinegar.ENew (Vinegar.Real c) -> Vinegar.inst_custom (c_rflags C) = false ->
+             exists n ok, Vinegar.assoc n (Vinegar.builtins_ns (s_env S)) = Some (Vinegar.AExc c ok)).
+Proof.
+  intros E. pose proof (trace_event_ok _ _ _ _ _ E) as [payload H]. repeat split.
+  - intros m ->. exact (proj1 (VinegarP.no_import_unless_allowed _ _ _ _ H)).
+  - intros c ->. exact (VinegarP.never_init _ _ _ _ H).
+  - intros c -> Hi. exact (VinegarP.new_only_builtin _ _ _ _ Hi H).
+Qed.
+End Final.
+
+(* under the default configuration: by-name accesses are reads of exposed_/safe names (or the object's own hook decides) *)
+Definition allowed_default (n : text) : Prop := starts_with (txt "exposed_") n = true \/ In n (map txt default_safe).
+Lemma probe_names_default p pn vw n : In (EGet n) (probes_of (c_attr default_config) p pn vw) -> allowed_default n.
+Proof.
+  unfold probes_of. destruct (nkind_of pn); try contradiction; (destruct (hook_for vw p); [contradiction|]);
+    intros H; apply in_map_iff in H as (q & Hq & Hin);
+    unfold check_probes in Hin; cbn [c_attr default_config sw default_switches lookup_perm allow_safe allow_exposed allow_public allow_all] in Hin;
+    (destruct p; cbn [allow_getattr allow_setattr allow_delattr negb] in Hin; try contradiction);
+    cbn [exposed_prefix nonempty txt andb orb] in Hin;
+    (apply in_app_or in Hin as [Hin|Hin];
+     [ destruct Hin as [<-|[]]; cbn in Hq; injection Hq as <-; left; first [apply starts_with_app | reflexivity]
+     | match type of Hin with In _ (if ?b then _ else _) => destruct b eqn:B end; [|contradiction];
+       destruct Hin as [<-|[]]; cbn in Hq; injection Hq as <-;
+       apply andb_prop in B as [B _]; cbn in B; apply orb_prop in B as [B|B];
+       [ apply orb_prop in B as [B|B]; [left; exact B|right; now apply mem_In] | discriminate B] ]).
+Qed.
+
+(* a request whose first argument is a reference this connection's table does not have (forged, released, or harvested on
+   another connection): refused with KeyError under the request's own sequence number; nothing is touched, nothing changes *)
+Theorem forged_reference_refused {W} (S : sem W) (s : hst W) seq h key rest answers :
+  closed s = false -> tbl_find key (tbl s) = None ->
+  let msg := PTuple [PInt 1; seq; PTuple [h; PTuple [PInt 2; PTuple (PTuple [PInt 3; key] :: rest)]]] in
+  exists s', handle_msg S default_config handlers dispatch msg_ladder unbox_ladder box_ladder msg answers s = (s', OExc seq (XStd KeyError))
+    /\ wst s' = wst s /\ tbl s' = tbl s /\ tr s' = EMiss key :: EMsg :: tr s /\ closed s' = false.
+Proof.
+  intros Hc F msg. subst msg. unfold handle_msg. rewrite Hc. cbn [Vinegar.unpack iter_elems bind List.length Nat.eqb num_of assoc_z msg_ladder Z.eqb].
+  unfold dispatch_request. cbn [Vinegar.unpack iter_elems bind List.length Nat.eqb lift mbind ret].
+  unfold FUEL. cbn [unbox Vinegar.unpack iter_elems bind List.length Nat.eqb lift mbind ret num_of assoc_z unbox_ladder Z.eqb in_genexpr].
+  unfold resolve at 1. cbn [tbl with_script add_ev with_tr]. rewrite F. cbn [closed with_script add_ev with_tr propagates default_config].
+  eexists. split; [reflexivity|]. cbn. rewrite Hc. auto.
+Qed.
